@@ -106,7 +106,8 @@ pub fn print_archive<R>(archive: &Archive<R>) {
                 .iter()
                 .map(|cdesc| u64::from(cdesc.source_size))
                 .sum::<u64>()
-                / archive.chunk_descriptors().len() as u64
+                .checked_div(archive.chunk_descriptors().len() as u64)
+                .unwrap_or(0)
         )
     );
     info!(
